@@ -98,11 +98,29 @@ def _pinned_wide():
             dict(base, N=6, W=10, lengths=[200], sensor_scales=[1e5, 1e6, 1e5, 1e6, 1e5, 1e6], data_seed=5)]
 
 
+def _many_runs(tier):
+    # more than 2**16 (and, thorough, 2**17) maximal runs of one label: counters of the run loop in a narrow integer type wrap there
+    base = {"front": "single", "N": 1, "W": 1, "K": 2, "lengths": [132000], "regimes": 2, "mean_spread": 2.0, "data_seed": 5,
+            "np_seed": 5, "py_seed": 5, "beta": 0.0, "beta_form": "scalar", "lam": 0.11, "lam_form": "scalar", "limit": 1,
+            "m": 5, "biased": False, "eps": 0, "num_processors": 1, "boundary_regime_flip": False, "alternating_rows": True}
+    yield base
+    yield dict(base, lengths=[140001], data_seed=7, biased=True)
+    if tier == "thorough":
+        yield dict(base, lengths=[270000], data_seed=6)
+
+
+def execute_many_runs(case, t):
+    execute(case, t)
+    t.cls("more_than_65535_runs_of_one_label")
+
+
 SUBCHECKS = [
     SubCheck(name="bic_vs_definition", strategy=lambda: gen.e2e_config(betas=(0.0, 0.5, 2.0, 10.0, 50.0),
                                                                        eps_values=(0, 0, 0, 1e-12, 1e-9, 1e-7, 1e-5, 3e-5, 1e-3), scales=True, scale_prob=0.3), execute=execute,
              budget={"quick": 128, "thorough": 3000}, shards={"quick": 16, "thorough": 8}, modes=E2E_MODES,
              min_nontrivial_fraction=0.3),
+    SubCheck(name="bic_very_many_label_runs", enumerate=_many_runs, execute=execute_many_runs, exhaustive=False,
+             budget={"quick": 1, "thorough": 1}, shards={"quick": 1, "thorough": 2}, modes=["jit"], ambient=()),
     SubCheck(name="bic_wide_scales_large_NW", strategy=_wide, execute=execute, pinned=_pinned_wide,
              budget={"quick": 32, "thorough": 800}, shards={"quick": 16, "thorough": 16}, modes={"quick": ["nojit"], "thorough": ["nojit"]},
              min_nontrivial_fraction=0.0),
